@@ -311,7 +311,8 @@ pub fn run(tier: Tier) -> i32 {
         if std::str::from_utf8(&c.body).is_err() {
             invalid.fetch_add(1, Ordering::Relaxed);
         }
-        let checked = match crate::common::guarded(|| check_case(&c.body, &c.filters, &c.headers, Some((&states, &transitions)))) {
+        let case_json = || json!({"body": c.body, "body_text": String::from_utf8_lossy(&c.body), "filters": c.filters, "headers": c.headers, "schedule": [c.body.len()], "watch_label": "chunked-filtering"});
+        let checked = match crate::common::watched(case_json, || crate::common::guarded(|| check_case(&c.body, &c.filters, &c.headers, Some((&states, &transitions))))) {
             Ok(v) => v,
             Err((loc, msg)) => vec![(format!("panic:{loc}"), format!("the filter chain panicked at {loc}: {msg}; body {:?}", String::from_utf8_lossy(&c.body)), vec![])],
         };
